@@ -209,6 +209,163 @@ theorem decorate_preserves_other (url : Bytes) (kid : Nat) (nonce out : Bytes) (
   rw [hassoc] at hlen ⊢
   exact reparse_other u (parse_wf url u hp) _ sc hsch hs hq (fun hm => (hc 35 hm).2.2 rfl) hlen
 
+/-! ### Every generic scheme `parse` returns is an `OtherScheme` -/
+
+/-- What a successful generic scan says about the text: from position `i` on it reads `n - i`
+scheme characters, then "://". -/
+theorem scanScheme_facts (full : Bytes) (rest : Bytes) (i n : Nat) (hfull : full.drop i = rest)
+    (h : scanScheme full i rest = .other n) :
+    i ≤ n ∧ n ≤ 64 ∧ (∀ b ∈ (full.drop i).take (n - i), schemeChar b = true) ∧
+      (full.drop n).take 3 = [58, 47, 47] := by
+  induction rest generalizing i with
+  | nil => unfold scanScheme at h; cases h
+  | cons b r ih =>
+    have hfull' : full.drop (i + 1) = r := by rw [← List.drop_drop, hfull]; rfl
+    unfold scanScheme at h
+    split at h
+    · rename_i hb
+      split at h
+      · cases h
+      · split at h
+        · cases h
+        · split at h
+          · cases h
+          · rename_i h2 h64
+            have hh := SchemeScan.other.inj h
+            subst hh
+            refine ⟨Nat.le_refl _, by omega, by simp, ?_⟩
+            simp only [ne_eq, Decidable.not_not] at h2
+            have h1 : (full.drop i).take 3 = b :: ((full.drop (i + 1)).take 2) := by
+              rw [hfull, hfull']; rfl
+            rw [h1, h2, hb]
+    · rename_i hb
+      split at h
+      · rename_i hsc
+        obtain ⟨h1, h2, h3, h4⟩ := ih (i + 1) hfull' h
+        refine ⟨by omega, h2, ?_, h4⟩
+        intro x hx
+        rw [hfull] at hx
+        have e : n - i = (n - (i + 1)) + 1 := by omega
+        rw [e, List.take_succ_cons] at hx
+        rcases List.mem_cons.1 hx with rfl | hx
+        · exact hsc
+        · rw [← hfull'] at hx; exact h3 x hx
+      · cases h
+
+theorem http_prefix_of (sc rest : Bytes) (hm : sc.map lower = [104, 116, 116, 112]) :
+    (sc ++ 58 :: 47 :: 47 :: rest).length ≥ 7 ∧
+      ((sc ++ 58 :: 47 :: 47 :: rest).take 7).map lower = [104, 116, 116, 112, 58, 47, 47] := by
+  have l58 : lower 58 = 58 := by decide
+  have l47 : lower 47 = 47 := by decide
+  rcases sc with _ | ⟨a, _ | ⟨b, _ | ⟨c, _ | ⟨d, _ | ⟨e, r⟩⟩⟩⟩⟩ <;> simp at hm
+  obtain ⟨h1, h2, h3, h4⟩ := hm
+  simp [h1, h2, h3, h4, l58, l47]
+
+theorem https_prefix_of (sc rest : Bytes) (hm : sc.map lower = [104, 116, 116, 112, 115]) :
+    (sc ++ 58 :: 47 :: 47 :: rest).length ≥ 8 ∧
+      ((sc ++ 58 :: 47 :: 47 :: rest).take 8).map lower = [104, 116, 116, 112, 115, 58, 47, 47] := by
+  have l58 : lower 58 = 58 := by decide
+  have l47 : lower 47 = 47 := by decide
+  rcases sc with _ | ⟨a, _ | ⟨b, _ | ⟨c, _ | ⟨d, _ | ⟨e, _ | ⟨f, r⟩⟩⟩⟩⟩⟩ <;> simp at hm
+  obtain ⟨h1, h2, h3, h4, h5⟩ := hm
+  simp [h1, h2, h3, h4, h5, l58, l47]
+
+/-- The converse of `splitScheme_other`: a generic scheme returned by the split satisfies
+`OtherScheme`. -/
+theorem splitScheme_other_facts (s sc rest : Bytes) (h : splitScheme s = .ok (some (.other sc), rest)) :
+    OtherScheme sc := by
+  unfold splitScheme at h
+  split at h
+  · cases h
+  · rename_i hn1
+    split at h
+    · cases h
+    · rename_i hn2
+      split at h
+      · cases hsc : scanScheme s 0 s with
+        | none => rw [hsc] at h; cases h
+        | tooLong => rw [hsc] at h; cases h
+        | other n =>
+          rw [hsc] at h
+          simp only [R.ok.injEq, Prod.mk.injEq, Option.some.injEq, Scheme.other.injEq] at h
+          obtain ⟨h1, _⟩ := h
+          obtain ⟨_, h64, hch, h3⟩ := scanScheme_facts s s 0 n rfl hsc
+          simp only [List.drop_zero, Nat.sub_zero] at hch
+          have hs : s = sc ++ 58 :: 47 :: 47 :: s.drop (n + 3) := by
+            have a := (List.take_append_drop n s).symm
+            have b := (List.take_append_drop 3 (s.drop n)).symm
+            rw [h3, List.drop_drop] at b
+            rw [b, h1] at a
+            simpa [Nat.add_comm] using a
+          have hn : sc.length ≤ 64 := by
+            rw [← h1, List.length_take]; omega
+          refine ⟨by rw [← h1]; exact hch, hn, ?_, ?_⟩
+          · intro hm
+            apply hn1
+            rw [hs]
+            exact http_prefix_of sc _ hm
+          · intro hm
+            apply hn2
+            rw [hs]
+            exact https_prefix_of sc _ hm
+      · cases h
+
+/-- A generic scheme in the result of `parse` satisfies `OtherScheme`. -/
+theorem parse_other_scheme (url : Bytes) (u : Parts) (sc : Bytes) (hp : parse url = .ok u)
+    (hsch : u.scheme = some (.other sc)) : OtherScheme sc := by
+  unfold parse at hp
+  split at hp
+  · cases hp
+  · split at hp
+    · cases hp
+    · split at hp
+      · cases hp
+      · split at hp
+        · unfold parseOrigin at hp
+          split at hp
+          · simp only [R.ok.injEq] at hp; subst hp; cases hsch
+          · cases hp
+        · unfold parseAbs at hp
+          cases hsp : splitScheme url with
+          | err => simp [hsp] at hp
+          | outside => simp [hsp] at hp
+          | ok p =>
+            obtain ⟨sch, rest⟩ := p
+            cases sch with
+            | none => simp [hsp] at hp
+            | some sch =>
+              simp only [hsp] at hp
+              have : u.scheme = some sch := by
+                unfold parseAfterScheme at hp
+                split at hp
+                · cases hp
+                · split at hp
+                  · cases hp
+                  · split at hp
+                    · simp only [R.ok.injEq] at hp; subst hp; rfl
+                    · cases hp
+              rw [this] at hsch
+              have := Option.some.inj hsch; subst this
+              exact splitScheme_other_facts url sc rest hsp
+
+/-- **decorate_preserves_any.** For *every* service URL the model of `Uri::from_str` accepts —
+origin form, http, https or a generic scheme — the decorated URL parses back to the same scheme,
+authority and path ("" read as "/") with the query extended by exactly the `cup2key` parameter
+(unless the result exceeds `http::Uri`'s length limit). No hypothesis on the scheme is left. -/
+theorem decorate_preserves_any (url : Bytes) (kid : Nat) (nonce out : Bytes) (u : Parts)
+    (hp : parse url = .ok u) (hd : decorate url kid nonce = .ok out) (hlen : out.length ≤ 65534) :
+    parse out = .ok ⟨u.scheme, u.authority, pathOrSlash u.path,
+                     some (queryWith u.query (cup2keyName ++ 61 :: Cup.cup2key kid nonce))⟩ := by
+  cases hs : u.scheme with
+  | none => rw [← hs]; exact decorate_preserves url kid nonce out u hp (Or.inl hs) hd hlen
+  | some sch =>
+    cases sch with
+    | http => rw [← hs]; exact decorate_preserves url kid nonce out u hp (Or.inr (Or.inl hs)) hd hlen
+    | https => rw [← hs]; exact decorate_preserves url kid nonce out u hp (Or.inr (Or.inr hs)) hd hlen
+    | other sc =>
+      rw [← hs]
+      exact decorate_preserves_other url kid nonce out u sc hp hs (parse_other_scheme url u sc hp hs) hd hlen
+
 /-! ### Non-vacuity -/
 
 -- "ftp+x" is a generic scheme; "Http" is not
